@@ -84,7 +84,7 @@ func probeChild() {
 			os.Exit(2)
 		}
 		p("writer: sample/span at %s -> time_series.date=%s tempo_traces_attrs_gin.date=%s (UTC day %s)%s", t.Format(time.RFC3339), dayStr(sd), dayStr(td),
-			dayStr(utcDay(t.UnixNano())), mark(sd != utcDay(t.UnixNano()), " <-- D9: series row dated off the UTC day")+mark(td != utcDay(t.UnixNano()), " <-- tag row dated by the LOCAL day"))
+			dayStr(utcDay(t.UnixNano())), mark(sd != utcDay(t.UnixNano()), " <-- D9: series row dated off the UTC day")+mark(td != utcDay(t.UnixNano()), " <-- D130: tag row dated by the LOCAL day"))
 	}
 
 	// ---- reader side: date bounds of the planners ----
@@ -143,7 +143,7 @@ func probeChild() {
 	mu.Lock()
 	for _, st := range seen {
 		if strings.Contains(st, "samples") && strings.Contains(st, "timestamp_ns") {
-			p("query_range start=%d end=%d -> %s%s", s, e, bounds(st), mark(!strings.Contains(st, fmt.Sprint(s)), " <-- bounds truncated to whole seconds"))
+			p("query_range start=%d end=%d -> %s%s", s, e, bounds(st), mark(!strings.Contains(st, fmt.Sprint(s)), " <-- D131: bounds truncated to whole seconds"))
 		}
 	}
 	mu.Unlock()
